@@ -109,6 +109,18 @@ Theorem C20_source_forwarded_hop_limit_is_an_octet : forall ver nh res lt rhl,
 Proof. exact src_set_rhl. Qed.
 Print Assumptions C20_source_forwarded_hop_limit_is_an_octet.
 
+Theorem C20_source_default_basic_header : forall s pv hl rhl,
+  BasicHeader_initialize_with_mib_and_rhl s pv hl rhl = (1, 1, 0, req_lt s None, rhl) /\
+  BasicHeader_initialize_with_mib s pv hl rhl = (pv, 1, 0, req_lt s None, hl).
+Proof. exact src_bh_default_lifetime. Qed.
+Print Assumptions C20_source_default_basic_header.
+
+Theorem C20_source_default_lifetime_never_exceeds : forall s pv hl rhl, 0 <= s ->
+  let '(_, _, _, (m, b), _) := BasicHeader_initialize_with_mib_and_rhl s pv hl rhl in
+  LT_get_value_in_millis m b <= s * 1000.
+Proof. exact src_bh_default_lifetime_le. Qed.
+Print Assumptions C20_source_default_lifetime_never_exceeds.
+
 (* Non-vacuity: concrete inputs meeting the hypotheses. *)
 Example C20_example : lt_encode 1050 = (21, 0) /\ lt_encode 15000 = (15, 1) /\
   lt_encode 1000 = (1, 1) /\ lt_encode 999 = (19, 0) /\ lt_encode 600000 = (6, 3).
